@@ -165,6 +165,26 @@ def run(prog, ctx):
                     statcall = c
                 break
         if statvar is None:
+            # lstat() on a name derived from file_name: resolved names follow the link, so the inspection is of the target
+            from sa.dataflow import ReachingDefs, origins
+            rdg = ReachingDefs(gate)
+            for c in dev:
+                args = c.call_args()
+                if c.j.get("callee") in ("lstat", "lstat64") and len(args) == 2:
+                    o = origins(rdg, args[0], c, passthrough={"stpcpy": 0, "strcpy": 0, "strcat": 0, "strncpy": 0, "memcpy": 0, "mempcpy": 0})
+                    res = [x for x in o if not isinstance(x, tuple) and x.k == "CallExpr" and x.j.get("callee") in RESOLVERS
+                           and any(query.refs_param(y, "file_name") for y in x.call_args())]
+                    if res:
+                        ctx.fail("X1", "stat source", c.where,
+                                 "the gate inspects `%s`, which comes out of %s(file_name): symbolic links are resolved before lstat(), so the no-symlink "
+                                 "rule never fires and owner/group are those of the link's target" % (render(args[0]), res[0].j["callee"]),
+                                 key="stat-resolved-name")
+                        a1 = args[1].strip()
+                        if a1.k == "UnaryOperator":
+                            statvar = render(a1.children[0])
+                            statcall = c
+                        break
+        if statvar is None:
             ctx.inconclusive("X1", "stat source", gate.where, "no lstat(file_name, &sb) found in the gate")
             return
     else:
@@ -202,6 +222,15 @@ def run(prog, ctx):
                      key="gate:%s" % name, path=cfg.describe_path(wp))
         # guard evaluated on data from the stat call: stat dominates the parser call
         rets = query.returns_of_constant(gate, code)
+        if not rets:
+            # the code delivered through the status variable: `err = CODE; ... return err;`
+            cval = prog.enumerators.get(code)
+            for lhs2, rhs2, st2, k2 in query.stores(gate):
+                r2 = rhs2.strip() if rhs2 is not None else None
+                if k2 == "=" and r2 is not None and r2.k == "DeclRefExpr" and r2.j.get("name") == code and lhs2.strip().k == "DeclRefExpr":
+                    vals = cfg.returned_values_from(cfg.block_of(st2))
+                    if vals == {cval}:
+                        rets.append(st2)
         if not rets:
             ctx.fail("X1", inst + " has its error code", gate.where,
                      "no `return %s` in the gate: a violating file is not refused with the specific code" % code,
@@ -249,7 +278,45 @@ def run(prog, ctx):
     if unknown:
         ctx.inconclusive("X3", "unknown gate flag(s) %s" % sorted(unknown), gate.where,
                          "the gate branches on a flag that is not in the restriction table")
-    ctx.floor("C16 guards", len([r for r in RESTRICTIONS if query.returns_of_constant(gate, r[4])]), 3)
+    ctx.floor("C16 guards", len([o for o in ctx.obs if o.rule == "X1" and " refuses with " in o.instance]), 3)
+
+    # ---- X6: no restriction beyond the documented ones ------------------------------------------------------
+    # "files that satisfy the rules are read as usual": a read may be turned down on what lstat()/fstat() report only for the
+    # properties the restrictions are about - owner, group, mode (permissions, symbolic link).  A test on any other attribute
+    # (device, inode, size, link count, times) whose one side can only fail is a restriction nobody asked for.
+    import re as _re
+    n6 = 0
+    for fx in (gate, parser):
+        xcfg = fx.cfg
+        for (b, i, s2) in xcfg.edges():
+            lit = xcfg.edge_lit(b, i)
+            if lit is None:
+                continue
+            flds = set(_re.findall(r"(?:\.|->)(st_[a-z_]+)", lit.atom))
+            if not flds:
+                continue
+            n6 += 1
+            other = flds - {"st_uid", "st_gid", "st_mode"}
+            if not other:
+                continue
+            # where does this side go?  follow the straight line from the edge to a return
+            vals, cur, hops = set(), s2, 0
+            while cur is not None and hops < 6:
+                r6 = xcfg.return_of_block(cur)
+                if r6 is not None:
+                    vals.add(query.returned_constant(r6))
+                    break
+                succs = [x for x in xcfg.blocks[cur].succs if x is not None]
+                cur = succs[0] if len(succs) == 1 else None
+                hops += 1
+            if vals and not (vals & {0, "ECONF_SUCCESS", None}):
+                ctx.fail("X6", "no restriction beyond the documented ones", lit.node.where,
+                         "%s turns a file down (%s) on %s: a file that satisfies every restriction in force (e.g. a symbolic link while links "
+                         "are allowed) is not read as usual" % (fx.name, ", ".join(sorted(str(v) for v in vals)), " / ".join(sorted(other))),
+                         key="extra-restriction:%s:%s" % (fx.name, "+".join(sorted(other))))
+    if n6:
+        ctx.ok("X6", "no restriction beyond the documented ones", gate.where, "%d tests on stat data, all on owner, group or mode" % n6) if not any(
+            o.rule == "X6" and o.outcome == "FAIL" for o in ctx.obs) else None
 
     # ---- X3 reset and setters --------------------------------------------------------
     reset = prog.fn(RESET)
@@ -300,6 +367,15 @@ def run(prog, ctx):
     allg = set()
     for t in SETTERS.values():
         allg |= set(t)
+    # a restriction is in force for every read of the process once it is set: the settings are not per-thread objects
+    tls = [g for g in sorted(allg) if g in prog.globals and prog.globals[g].j.get("tls")]
+    if tls:
+        gv = prog.globals[tls[0]]
+        ctx.fail("X3", "the restrictions are process-wide", "%s:%s" % (gv.unit, gv.line),
+                 "%s %s thread-local: a restriction set by one thread (the usual place: start-up code) is not in force for the reads of any other "
+                 "thread, which start from the permissive defaults" % (", ".join(tls), "is" if len(tls) == 1 else "are"), key="restriction-tls")
+    else:
+        ctx.ok("X3", "the restrictions are process-wide", gate.where, "none of %s has thread storage duration" % sorted(allg))
     allowed = set(SETTERS) | {RESET}
     for f in prog.lib_functions():
         if f.name in allowed:
